@@ -116,6 +116,11 @@ def _step_axiom(name, P, xs, body, conj):
     return ax
 
 
+# bound-indexed predicates with a step axiom: name -> (P, W, xs, body, trig, conj); each step axiom is
+# re-derived from the predicate's elimination / introduction axioms by lemmas/zlemmas.py (lemma "<name>.step")
+STEP_PREDS: dict = {}
+
+
 def defpred_all(name, sorts, length, body, trig, step=False):
     """P(xs)  <=>  forall k in [0, length(xs)): body(xs, k).
     elimination is triggered by P(xs) together with trig(xs, k)."""
@@ -128,6 +133,7 @@ def defpred_all(name, sorts, length, body, trig, step=False):
     TH.axiom(xs, P(*xs), z3.Implies(z3.Not(P(*xs)), z3.And(0 <= w, w < length(xs), z3.Not(body(xs, w)))), f"{name}.intro")
     if step:
         _step_axiom(name, P, xs, body, True)
+        STEP_PREDS[name] = (P, W, xs, body, trig, True)
     return P, W
 
 
@@ -142,6 +148,7 @@ def defpred_some(name, sorts, length, body, trig, step=False):
     TH.axiom(xs, P(*xs), z3.Implies(P(*xs), z3.And(0 <= w, w < length(xs), body(xs, w))), f"{name}.elim")
     if step:
         _step_axiom(name, P, xs, body, False)
+        STEP_PREDS[name] = (P, W, xs, body, trig, False)
     return P, W
 
 
